@@ -240,6 +240,8 @@ def run_cases(ctx, drv, cases, jobs=14, per_proc=12, timeout=600, leaks=False, s
     def split(path, n_expected):
         chunks, cur = [], None
         start = '{"e":"Header"' if not split_on_mark else '{"e":"Mark","v":"%s"' % split_on_mark
+        if split_on_mark == "__case__":
+            start = '{"e":"Mark","v":"__case__"'
         for ln in open(path):
             if ln.startswith(start):
                 cur = []
